@@ -182,7 +182,14 @@ GIVEUP = GiveUpCounter()
 logging.getLogger().addHandler(GIVEUP)
 
 
-def variable_arg(name, as_object):
+def fresh_str(name):
+    """An equal but distinct str object (multi-character names; CPython shares 1-character strings)."""
+    return "".join(list(name))
+
+
+def variable_arg(name, as_object, fresh=False):
+    if fresh:
+        name = fresh_str(name)
     return lib.EXPR_CLASSES["Variable"](name) if as_object else name
 
 
@@ -312,6 +319,8 @@ class World:
                 raise HarnessError("creation_order is not topological")
             if junk:
                 self._junk.append([object() for _ in range(junk[j % len(junk)])])
+            if scn.get("fresh_names") and node["op"] == "Variable":
+                node = dict(node, name=fresh_str(node["name"]))
             live[i] = S.node_construct(node, kids)
         for i, obj in enumerate(live):
             if obj is None:
@@ -395,7 +404,7 @@ def _call(step, k, ops, pt):
             cls = step["cls"]
             e = ops[0]
             if cls == "Partial":
-                return None, lib.Partial(e, variable_arg(step["v"], step.get("vobj", False)),
+                return None, lib.Partial(e, variable_arg(step["v"], step.get("vobj", False), step.get("vfresh", False)),
                                          compute_early=step.get("early", False))
             if cls == "Derivative":
                 return None, lib.Derivative(e, compute_early=step.get("early", False))
@@ -405,12 +414,12 @@ def _call(step, k, ops, pt):
                 return None, lib.LocatedDifferential(e, pt)
             raise HarnessError(cls)
         if k == "comp":
-            return None, ops[0].component(variable_arg(step["v"], step.get("vobj", False)))
+            return None, ops[0].component(variable_arg(step["v"], step.get("vobj", False), step.get("vfresh", False)))
         if k == "compat":
-            v = variable_arg(step["v"], step.get("vobj", False))
+            v = variable_arg(step["v"], step.get("vobj", False), step.get("vfresh", False))
             return ("num", ops[0].component_at(v, pt)), None
         if k == "lcomp":
-            return ("num", ops[0].component(variable_arg(step["v"], step.get("vobj", False)))), None
+            return ("num", ops[0].component(variable_arg(step["v"], step.get("vobj", False), step.get("vfresh", False)))), None
         if k == "asx":
             return None, ops[0].as_expression()
         if k == "norm":
